@@ -34,7 +34,7 @@ from elementpath.datatypes import DateTime10, DateTime, Date10, Date, \
 from elementpath.aliases import AtomicType, NumericType
 from elementpath.namespaces import get_namespace, split_expanded_name
 from elementpath.sequences import xlist
-from elementpath.compare import deep_equal
+from elementpath.compare import deep_equal, is_comparable
 from elementpath.sequence_types import match_sequence_type
 from elementpath.xpath_context import XPathSchemaContext
 from elementpath.xpath_nodes import XPathNode, DocumentNode, ElementNode, EtreeElementNode
@@ -590,17 +590,19 @@ def select__distinct_values(self: XPathFunction, context: ta.ContextType = None)
                         yield value
                         nan = True
                 elif all(not math.isclose(value, x, rel_tol=1E-18, abs_tol=0)
-                         for x in results if isinstance(x, (int, Decimal, float))):
+                         for x in results
+                         if isinstance(x, (int, Decimal, float)) and not isinstance(x, bool)):
                     yield value
                     results.append(value)
 
             elif isinstance(value, UntypedAtomic):
                 # untyped values are compared as strings (never cast to the type of another item)
-                if value.value not in results:
+                if not any(is_comparable(value.value, x) and value.value == x for x in results):
                     yield value
                     results.append(value.value)
 
-            elif value not in results:
+            elif not any(is_comparable(value, x) and value == x for x in results):
+                # values of types that are not comparable are distinct
                 yield value
                 results.append(value)
 
